@@ -240,9 +240,15 @@ func (u *Unmarshaler) fillSliceFromString(fieldType reflect.Type, value reflect.
 
 	baseFieldType := Deref(fieldType.Elem())
 	baseFieldKind := baseFieldType.Kind()
-	conv := reflect.MakeSlice(reflect.SliceOf(baseFieldType), len(slice), cap(slice))
+	// 元素类型按字段声明的来（可能是指针），否则 []*T 字段无法赋值
+	conv := reflect.MakeSlice(reflect.SliceOf(fieldType.Elem()), len(slice), cap(slice))
 
 	for i := 0; i < len(slice); i++ {
+		// 与 fillSlice 一致：跳过 null 元素
+		if slice[i] == nil {
+			continue
+		}
+
 		if err := u.fillSliceValue(conv, i, baseFieldKind, slice[i]); err != nil {
 			return err
 		}
